@@ -270,6 +270,17 @@ UNDEFINED_OK = {
 _UNIVERSE = {}
 
 
+def _imported_modules(prog):
+    mods = set()
+    for m in prog.modules.values():
+        for n in ast.walk(m.tree):
+            if isinstance(n, ast.Import):
+                mods.update(a.name for a in n.names)
+            elif isinstance(n, ast.ImportFrom) and n.level == 0 and n.module and not n.module.startswith("whoosh"):
+                mods.add(n.module)
+    return mods
+
+
 def _stdlib_names(prog):
     import importlib
     import types
@@ -295,13 +306,7 @@ def _stdlib_names(prog):
     for t in (str, bytes, bytearray, list, dict, set, frozenset, tuple, int, float, complex, object, type, BaseException, OSError,
               memoryview, slice, range, types.FunctionType, types.GeneratorType, types.MethodType, types.ModuleType, property):
         harvest(t)
-    mods = set()
-    for m in prog.modules.values():
-        for n in ast.walk(m.tree):
-            if isinstance(n, ast.Import):
-                mods.update(a.name for a in n.names)
-            elif isinstance(n, ast.ImportFrom) and n.level == 0 and n.module and not n.module.startswith("whoosh"):
-                mods.add(n.module)
+    mods = _imported_modules(prog)
     for name in sorted(mods):
         if name.split(".")[0] == "whoosh":
             continue
@@ -328,9 +333,9 @@ def _stdlib_names(prog):
 
 
 def attribute_universe(prog):
-    key = id(prog)
-    if key in _UNIVERSE:
-        return _UNIVERSE[key]
+    u = getattr(prog, "_attr_universe", None)
+    if u is not None:
+        return u
     defined = set()
     for m in prog.modules.values():
         for n in ast.walk(m.tree):
@@ -349,9 +354,11 @@ def attribute_universe(prog):
                 defined.add(n.arg)
             elif isinstance(n, ast.alias):
                 defined.add((n.asname or n.name).split(".")[0])
-    _UNIVERSE.clear()
-    _UNIVERSE[key] = (defined, _stdlib_names(prog))
-    return _UNIVERSE[key]
+    mods = frozenset(_imported_modules(prog))
+    if mods not in _UNIVERSE:
+        _UNIVERSE[mods] = _stdlib_names(prog)
+    prog._attr_universe = (defined, _UNIVERSE[mods])
+    return prog._attr_universe
 
 
 def _foreign_module_names(prog, f):
